@@ -98,6 +98,8 @@ def main():
             sys.exit(1)
         newobs = np.tile(np.expand_dims(obs, 3), [1, 1, 1, M])
         pit = np.mean(ens < newobs, axis=3)
+        # Comparisons with a missing observation are False, which would give a PIT of 0
+        pit[np.isnan(obs)] = np.nan
         """
         # approach b)
         for i in range(0, obs.shape[0]):
